@@ -117,7 +117,8 @@ DEPENDS = {
             ("c09", ["C09.R1", "C09.R3"], "readiness is read from attributes: the tag grammar"),
             ("c08", ["C08."], "a ready element must be tokenised as a tag"),
             ("c10", ["C10."], "a ready element must be paired with its closing tag"),
-            ("c15", ["C15.R1"], "every marker that was built is deleted from the text")],
+            ("c15", ["C15.R1"], "every marker that was built is deleted from the text"),
+            ("c11", ["C11.R1", "C11.R2"], "a ready unwrap-block is removed: its wrapper lines are found and the pair is built whenever the four line breaks exist")],
     "C04": [("c05", ["C05.R1", "C05.R2", "C05.R3"], "nothing is ready => nothing changes: the expiry decision"),
             ("c06", ["C06.R1", "C06.R2", "C06.R3"], "nothing is ready => nothing changes: marker / skip decision"),
             ("c09", ["C09.R1", "C09.R3"], "malformed / quoted values and unregistered names must not become ready: the tag grammar"),
@@ -137,13 +138,15 @@ DEPENDS = {
             ("c13", ["C13.R7"], "the wrapper lines are found: a non-pausing scan passes everything but a line break and reports that one")],
     "C12": [("c13", ["C13.R7"], "the indentation is measured up to the first non-blank: the scanners pass blanks and report what follows them")],
     "C13": [("c02", ["C02.R4"], "whole lines are deleted and nothing else: the byte tables of the line scanners"),
+            ("c02", ["C02.R8", "C02.R9"], "whole lines are deleted: an element's marker covers the element whatever children it absorbed (a marker that shrinks to a child leaves part of a tag line behind)"),
             ("c14", ["C14.R8"], "the seam formatters are asked about the seams: removed positions are shifted by what was removed before")],
     "C14": [("c02", ["C02.R2", "C02.R3", "C02.R8", "C02.R9"], "no retained character is deleted: the markers are disjoint (children absorbed, halves kept apart) and applied back to front"),
             ("c12", ["C12.R4", "C12.R5"], "whitespace changes stay at the borders: head/tail pair indices and sorted block ranges"),
             ("c04", ["C04.R2"], "whitespace changes stay at the borders: formatter ranges exist only at removed positions")],
     "C15": [("c17", ["C17.R1b"], "the Ready items are the same in the plain and in the full listing: the ready list does not depend on the pending flag"),
             ("c16", ["C16.R5"], "highlighted text equal to the text of the region: nothing rewrites or trims the listed text"),
-            ("c16", ["C16.R1", "C16.R7"], "same first and last line numbers: both list forms render the same line map, and a line is what ends in '\\n'")],
+            ("c16", ["C16.R1", "C16.R7", "C16.R9"], "same first and last line numbers: both list forms render the same line map, a line is what ends in '\\n', and the range of a region is (line of its first byte, line of its last byte)"),
+            ("c02", ["C02.R8", "C02.R9"], "one Ready item per deleted region: child markers are absorbed into head and tail, the halves kept apart")],
     "C16": [("c20", ["C20.R3"], "at the command line --list-json selects the JSON form for --list and for --list-all")],
     "C17": [("c03", ["C03.R4", "C03.R6"], "pending regions are built by the same strategies as ready ones: first available strategy, extents")],
     "C18": [("c20", ["C20.R1"], "the delimiters given on the command line reach the library as given")],
